@@ -342,7 +342,9 @@ impl Engine for C04 {
             }
             let mut delivered = text.clone();
             let read_res = if let Some(dir) = dir.as_mut() {
-                let name = format!("d{step}.tinydiff");
+                // one path for the whole history (the file is replaced between the steps): a reader that remembers what it
+                // read under a path answers with the old diff (missed seeded change C04-7)
+                let name = if p.text_style % 2 == 0 { format!("d{step}.tinydiff") } else { "current.tinydiff".to_string() };
                 dir.create(&name, &text);
                 st.events += 3;
                 st.probe("read_via_file");
